@@ -2,3 +2,5 @@ import CheetahModel.Properties.C03
 import CheetahModel.Properties.C02
 import CheetahModel.Properties.C01
 import CheetahModel.Properties.C08
+import CheetahModel.Properties.C06
+import CheetahModel.Properties.C10
